@@ -30,4 +30,16 @@ PROPS = {
     },
 }
 
+PROPS['C01'] = {
+    'run_vo': 'Codec/RunC01.vo', 'props_vo': 'Properties/C01.vo', 'level': 'proof',
+    'classes': {1: 'size-differs-from-encoding-length', 2: 'small-buffer-not-reported-or-touched', 3: 'bytes-differ-from-rfc-encoding-or-overrun',
+                4: 'decode-of-encode-differs', 5: 'stream-header-preparse-differs', 6: 'pooled-roundtrip-differs',
+                7: 'outside-preconditions-accepted', 9: 'datagram-type-4-255-truncated'},
+    'trusted': ['hook tcp/coder/export_verif.go (build tag verif) exposing messageMaxLen read by gen'],
+    'assumptions': ['Go int/uint8/uint16/uint32 conversions modelled in Z with explicit mod', 'slices modelled as lists; a destination buffer by its length and content'],
+    'level_text': 'TODO',
+    'level_note': 'TODO',
+    'explanation': 'TODO',
+}
+
 NOT_APPLICABLE = {}
